@@ -12,6 +12,7 @@
 #include <stdio.h>
 #include <stdlib.h>
 #include <string.h>
+#include <sys/auxv.h>
 #include <sys/select.h>
 #include <sys/socket.h>
 #include <sys/stat.h>
@@ -364,6 +365,21 @@ int getutline_r(const struct utmp *line, struct utmp *buf, struct utmp **res) {
     }
     *res = nullptr; errno = ESRCH; e.ret = -1; e.err = ESRCH;
     return -1;
+}
+
+// ---------------------------------------------------------------- secure-execution mode
+char *secure_getenv(const char *name) {
+    if (!sim_active()) return REAL(secure_getenv)(name);
+    SimScope s; sim_step(); sim_event("secure_getenv", name ? name : "");
+    if (G.w.at_secure) return nullptr;
+    t_in_sim--; char *v = getenv(name); t_in_sim++;
+    return v;
+}
+char *__secure_getenv(const char *name) { return secure_getenv(name); }
+unsigned long getauxval(unsigned long type) {
+    if (!sim_active() || type != 23 /* AT_SECURE */) return REAL(getauxval)(type);
+    SimScope s; sim_step(); sim_event("getauxval");
+    return G.w.at_secure ? 1 : 0;
 }
 
 // ---------------------------------------------------------------- clock
